@@ -518,3 +518,135 @@ Proof.
   - exists witness_unheld_then_held.
     exact (run_indices_dup _ _ _ _ _ (unsafe_unheld_then_held n0 cached)).
 Qed.
+
+(* ------------------------------------------- what each request obtained *)
+
+(** The indices handed to request [t]. *)
+Definition obtained (s : state) (t : nat) : list N :=
+  map snd (filter (fun p => Nat.eqb (fst p) t) (issued s)).
+
+Definition after_commit (p : pc) : bool :=
+  match p with PCallback | PUnlock | PDone => true | _ => false end.
+
+(** Whatever the locking: a request has obtained nothing before its commit,
+    and exactly the [th_n] consecutive indices from the value it read once its
+    transaction committed; a rolled back request never obtains anything. *)
+Definition Obt (ths : list thread) (s : state) : Prop :=
+  forall t th x, nth_error ths t = Some th -> nth_error (ts s) t = Some x ->
+    obtained s t = if th_commits th && after_commit (t_pc x)
+                   then rangeN (t_reg x) (th_n th) else [].
+
+Lemma obtained_app_other (t t' : nat) (l : list N) :
+  t <> t' -> map snd (filter (fun p => Nat.eqb (fst p) t') (map (fun i : N => (t, i)) l)) = [].
+Proof.
+  intros Hne. induction l as [|i l IH]; simpl; [reflexivity|].
+  destruct (Nat.eqb_spec t t'); [contradiction|]. exact IH.
+Qed.
+
+Lemma obtained_app_self t (l : list N) :
+  map snd (filter (fun p => Nat.eqb (fst p) t) (map (fun i : N => (t, i)) l)) = l.
+Proof.
+  induction l as [|i l IH]; simpl; [reflexivity|].
+  rewrite Nat.eqb_refl. simpl. now rewrite IH.
+Qed.
+
+Lemma init_obt ths n0 c : Obt ths (init ths n0 c).
+Proof.
+  intros t th x Eth Ex. unfold obtained; simpl. simpl in Ex.
+  rewrite nth_error_map, Eth in Ex. inv Ex. simpl.
+  unfold first_pc. destruct (th_held th); simpl; now rewrite andb_false_r.
+Qed.
+
+Lemma step_obt ths s t s' : Obt ths s -> step ths s t = Some s' -> Obt ths s'.
+Proof.
+  intros O Hs. unfold step in Hs.
+  destruct (nth_error ths t) as [th|] eqn:Eth; [|discriminate].
+  destruct (nth_error (ts s) t) as [x|] eqn:Ex; [|discriminate].
+  pose proof (O _ _ _ Eth Ex) as Ot.
+  (* every case: split on "is it the stepping thread" *)
+  assert (forall p r iss,
+            ts s' = upd (ts s) t {| t_pc := p; t_reg := r |} ->
+            issued s' = iss ->
+            (forall t' th' x', t <> t' -> nth_error ths t' = Some th' -> nth_error (ts s) t' = Some x' ->
+               map snd (filter (fun q => Nat.eqb (fst q) t') iss) =
+               if th_commits th' && after_commit (t_pc x') then rangeN (t_reg x') (th_n th') else []) ->
+            map snd (filter (fun q => Nat.eqb (fst q) t) iss) =
+              (if th_commits th && after_commit p then rangeN r (th_n th) else []) ->
+            Obt ths s') as K.
+  { intros p r iss Hts His Hother Hself t' th' x' Eth' Ex'. unfold obtained. rewrite His.
+    rewrite Hts in Ex'. destruct (Nat.eq_dec t t') as [<-|Hne].
+    - rewrite (nth_error_upd_eq _ _ _ _ Ex) in Ex'. inv Ex'. rewrite Eth in Eth'. inv Eth'. exact Hself.
+    - rewrite (nth_error_upd_ne _ _ _ _ Hne) in Ex'. eapply Hother; eauto. }
+  assert (forall t' th' x', nth_error ths t' = Some th' -> nth_error (ts s) t' = Some x' ->
+             map snd (filter (fun q => Nat.eqb (fst q) t') (issued s)) =
+             if th_commits th' && after_commit (t_pc x') then rangeN (t_reg x') (th_n th') else []) as O'.
+  { intros t' th' x' A B. exact (O _ _ _ A B). }
+  unfold obtained in Ot.
+  destruct (t_pc x) eqn:Epc; simpl in Ot; rewrite ?andb_false_r, ?andb_true_r in Ot.
+  - destruct (mtx s); [discriminate|]. inv Hs.
+    eapply K; [reflexivity|reflexivity|intros; eapply O'; eauto|]. simpl. now rewrite andb_false_r.
+  - destruct (wr s); [discriminate|]. inv Hs.
+    eapply K; [reflexivity|reflexivity|intros; eapply O'; eauto|]. simpl. now rewrite andb_false_r.
+  - destruct (th_n th =? 0); inv Hs;
+      (eapply K; [reflexivity|reflexivity|intros; eapply O'; eauto|]); simpl; now rewrite andb_false_r.
+  - inv Hs. eapply K; [reflexivity|reflexivity|intros; eapply O'; eauto|]. simpl. now rewrite andb_false_r.
+  - destruct (th_commits th) eqn:Ec; inv Hs.
+    + eapply K; [reflexivity|reflexivity| |].
+      * intros t' th' x' Hne A B. cbn [issued]. rewrite filter_app, map_app.
+        rewrite (obtained_app_other t t' _ Hne), app_nil_r. eapply O'; eauto.
+      * cbn [issued]. rewrite filter_app, map_app, Ot, obtained_app_self. reflexivity.
+    + eapply K; [reflexivity|reflexivity|intros; eapply O'; eauto|]. simpl. exact Ot.
+  - inv Hs. eapply K; [reflexivity|reflexivity|intros; eapply O'; eauto|].
+    simpl in *. rewrite Ot. unfold after_tx. destruct (th_held th), (th_commits th); reflexivity.
+  - inv Hs. eapply K; [reflexivity|reflexivity|intros; eapply O'; eauto|]. simpl in *.
+    rewrite Ot. destruct (th_commits th); reflexivity.
+  - discriminate.
+Qed.
+
+Lemma exec_obt ths sched : forall s s', Obt ths s -> exec ths s sched = Some s' -> Obt ths s'.
+Proof.
+  induction sched as [|t rest IH]; intros s s' O He; simpl in He.
+  - inv He. exact O.
+  - destruct (step ths s t) as [s1|] eqn:Es; [|discriminate].
+    eapply IH; [|exact He]. eapply step_obt; eauto.
+Qed.
+
+Lemma step_length ths s t s' : step ths s t = Some s' -> length (ts s') = length (ts s).
+Proof.
+  unfold step. intros Es. destruct (nth_error ths t); [|discriminate].
+  destruct (nth_error (ts s) t) as [x|]; [|discriminate].
+  destruct (t_pc x); try discriminate;
+    repeat match type of Es with
+           | context [match ?c with _ => _ end] => destruct c; try discriminate
+           end; inv Es; simpl; unfold set_pc; now rewrite length_upd.
+Qed.
+
+Lemma exec_length ths sched : forall s s',
+  exec ths s sched = Some s' -> length (ts s') = length (ts s).
+Proof.
+  induction sched as [|t rest IH]; intros s s' He; simpl in He.
+  - now inv He.
+  - destruct (step ths s t) as [s1|] eqn:Es; [|discriminate].
+    rewrite (IH _ _ He). eapply step_length; eauto.
+Qed.
+
+(** For every locking discipline and every schedule: when all requests have
+    returned, each request whose transaction committed holds exactly [th_n]
+    consecutive indices, and a rolled back one holds none. *)
+Theorem each_request_obtains ths n0 cached sched s :
+  exec ths (init ths n0 cached) sched = Some s -> terminated s = true ->
+  forall t th, nth_error ths t = Some th ->
+    (th_commits th = true -> exists r, obtained s t = rangeN r (th_n th)) /\
+    (th_commits th = false -> obtained s t = []).
+Proof.
+  intros He T t th Eth.
+  assert (Obt ths s) as O by (eapply exec_obt; eauto using init_obt).
+  assert (length (ts s) = length ths) as L.
+  { rewrite (exec_length _ _ _ _ He). apply map_length. }
+  assert (exists x, nth_error (ts s) t = Some x) as [x Ex].
+  { destruct (nth_error (ts s) t) eqn:E; [eauto|]. exfalso.
+    apply nth_error_None in E. assert (nth_error ths t <> None) as H by congruence.
+    apply nth_error_Some in H. lia. }
+  pose proof (O _ _ _ Eth Ex) as Ot. rewrite (terminated_all_done _ T _ _ Ex) in Ot. simpl in Ot.
+  split; intros Hc; rewrite Hc in Ot; simpl in Ot; eauto.
+Qed.
